@@ -103,6 +103,41 @@ def _raisers(db):
     return res
 
 
+def _strict_raisers(db):
+    """functions that (transitively) can set a newline count to something other than the literal 1 without the count being
+    larger already (i.e. can raise it above one line break)"""
+    prim = {}
+    for f in db.funcs.values():
+        if f.d.get("cls") == "Chunk":
+            continue
+        for n in f.nodes.values():
+            if n["k"] == "call" and (n.get("c") or "") == "Chunk::SetNlCount" and n.get("a"):
+                a = f.nodes.get(n["a"][0])
+                while a is not None and a["k"] == "cast":
+                    a = f.nodes.get(a["a"][0])
+                if a is not None and a["k"] == "int" and a["v"] <= 1:
+                    continue
+                arg = expr_str(f, n["a"][0])
+                recv = expr_str(f, n.get("o")) if "o" in n else ""
+                cs = _conds(f, n)
+                if ("%s->GetNlCount() > %s" % (recv, arg), True) in cs:
+                    continue          # lowers
+                prim.setdefault(f.key, []).append(n)
+    if db._callers is None:
+        db._build_cg()
+    res = set(prim)
+    changed = True
+    while changed:
+        changed = False
+        for f in db.funcs.values():
+            if f.key in res:
+                continue
+            if any(t in res for t in db._callees.get(f.key, ())):
+                res.add(f.key)
+                changed = True
+    return res
+
+
 def rule_cap_after_inserts(ctx):
     db = ctx.db
     r = ctx.rule("cap-after-inserts", "in uncrustify_file's newline loop every call that can set a newline count precedes do_blank_lines(), "
@@ -139,6 +174,34 @@ def rule_cap_after_inserts(ctx):
             r.check((not after) or name in allowed_after, "uncrustify_file/%s" % name, db.loc(u, n),
                     "%s() can change newline counts and runs after do_blank_lines() in the same pass: its result is never capped by nl_max" % name)
     r.require(n_calls >= 8, "only %d count-changing calls found in the newline loop" % n_calls)
+    # ... and nothing that can raise a count runs after that loop, i.e. after the last do_blank_lines(), before output_text()
+    outs = db.calls_in(u, "output_text")
+    strict = _strict_raisers(db)
+    seenb = set()
+    work = [s2 for b in body for s2 in u.succ[b] if s2 >= 0 and s2 not in body]
+    late = []
+    while work:
+        b = work.pop()
+        if b in seenb:
+            continue
+        seenb.add(b)
+        stop = False
+        for n in u.blocks[b]["n"]:
+            if any(n["i"] == o["i"] for o in outs):
+                stop = True
+                break
+            if n["k"] == "call" and not in_macro(n, "LOG_FMT") and any(t in strict for t in gs.call_targets(u, n)):
+                late.append(n)
+        if not stop:
+            work.extend(s2 for s2 in u.succ[b] if s2 >= 0)
+    cnt_names = {}
+    for n in sorted(late, key=lambda x: x["l"]):
+        name = n.get("c")
+        cnt_names[name] = cnt_names.get(name, 0) + 1
+        r.seen()
+        r.check(name in allowed_after, "uncrustify_file/after-last-cap/%s%s" % (name, "" if cnt_names[name] == 1 else "#%d" % cnt_names[name]), db.loc(u, n),
+                "%s() can raise newline counts and runs after the last do_blank_lines() of uncrustify_file (the retry block of the code_width "
+                "loop): its result is never capped by nl_max" % name)
     # the three reviewed followers
     cd = db.fn("newlines_cleanup_dup")
     for n in [x for x in cd.all_nodes() if x["k"] == "call" and (x.get("c") or "").endswith("SetNlCount")]:
